@@ -242,6 +242,10 @@ var rawPieces = []string{
 	`<a><![CDATA[<raw> & ]]></a>`, `<a>&lt;&amp;&#x41;&#10;</a>`, `<p:a xmlns:p="urn:p"><p:b p:c="d"/><q:e xmlns:q="urn:q" xmlns:p="urn:p2"><p:f/></q:e></p:a>`,
 	`<a xmlns:D="DAV:"><D:b><c xmlns="DAV:"><d xmlns=""/></c></D:b></a>`, `<a>é世&#x1F600;</a>`, `<a b="&quot;&lt;&#9;"/>`, `<a>x<b/>y<c/>z</a>`,
 	`<a><![CDATA[a]]><![CDATA[b]]>c</a>`, `<a xmlns:x="urn:1"><x:b xmlns:x="urn:2"/><x:c/></a>`,
+	// attributes whose names LOOK like namespace declarations but are ordinary attributes in a namespace (a prefixed
+	// attribute with the local name xmlns), and attributes with the same local name in different namespaces
+	`<x:note xmlns:x="urn:x" xmlns:m="urn:meta" m:xmlns="legacy" m:id="7"/>`, `<a xmlns:m="urn:meta" m:xmlns="v"><b m:xmlns="w" xmlns="urn:d"/></a>`,
+	`<a xmlns:p="urn:p" xmlns:q="urn:q" p:id="1" q:id="2" id="3"/>`,
 }
 
 func randXML(r *RNG, depth int) string {
@@ -306,6 +310,33 @@ func abortedRawDecode() {
 	}
 	var cup internal.CurrentUserPrincipal
 	p.Raw[0].Decode(&cup) // fails in Href.UnmarshalText while the rest of the element is still unread
+}
+
+// Prop.Decode picks the captured value by its namespace-expanded name among ALL the children of a prop element: what
+// it decodes equals what decoding that one element directly yields, whatever else stands next to it (same local name
+// in another namespace before it, after it, unrelated elements, text)
+func emitRawPropDecode(o *Out, name, siblings, wanted string, mk func() interface{}) {
+	res := guard(func() string {
+		direct := mk()
+		errD := xml.Unmarshal([]byte(wanted), direct)
+		var p internal.Prop
+		if err := xml.Unmarshal([]byte(`<D:prop xmlns:D="DAV:">`+siblings+`</D:prop>`), &p); err != nil {
+			return "capture-failed"
+		}
+		for k := 0; k < 2; k++ {
+			abortedRawDecode()
+		}
+		via := mk()
+		errV := p.Decode(via)
+		if (errD == nil) != (errV == nil) {
+			return fmt.Sprintf("differ-error(%v/%v)", errD != nil, errV != nil)
+		}
+		if errD == nil && !reflect.DeepEqual(direct, via) {
+			return "differ"
+		}
+		return "same"
+	})
+	o.Emit("raw.typed", hx(name)+" "+hx(siblings), res)
 }
 
 func emitRawTyped(o *Out, tc typedCase) {
@@ -408,6 +439,19 @@ func famRawXML(o *Out, r *RNG, thorough bool) {
 	}
 	for _, tc := range cases {
 		emitRawTyped(o, tc)
+	}
+	// the same typed values picked out of a prop element with neighbours
+	wantedDN := `<D:displayname xmlns:D="DAV:">Work</D:displayname>`
+	foreign := `<x:displayname xmlns:x="urn:example:ext">internal-id-42</x:displayname>`
+	nons := `<displayname xmlns="">bare</displayname>`
+	mkDN := func() interface{} { return &internal.DisplayName{} }
+	for i, sib := range []string{wantedDN, foreign + wantedDN, wantedDN + foreign, nons + foreign + wantedDN, `<D:getetag xmlns:D="DAV:">"e"</D:getetag> text ` + foreign + `<!-- c -->` + wantedDN,
+		foreign + `<D:resourcetype xmlns:D="DAV:"><D:displayname>inner</D:displayname></D:resourcetype>` + wantedDN} {
+		emitRawPropDecode(o, fmt.Sprintf("DisplayName-among-%d", i), sib, wantedDN, mkDN)
+	}
+	wantedET := `<getetag xmlns="DAV:">"t"</getetag>`
+	for i, sib := range []string{`<getetag xmlns="urn:other">"other"</getetag>` + wantedET, wantedET + `<getetag xmlns="urn:other">"other"</getetag>`} {
+		emitRawPropDecode(o, fmt.Sprintf("GetETag-among-%d", i), sib, wantedET, func() interface{} { return &internal.GetETag{} })
 	}
 }
 
